@@ -168,6 +168,22 @@ class C03(L1Prop):
             ops += [f"race 1 {rng.choice([1, 2, 2, 3])} {rng.choice([60, 120, 200])}", "dumpall"]
             out.append(Case(f"c03-race-{j}", ops, {"inst": True, "race": True, "group": "race", "sched": [], "cmode": "multi"}))
             k += 1
+        # between two transactions of ONE request another instance acts (it creates the very client the request is
+        # about to create, and uploads its first version), while a second upload is still arriving at the same
+        # worker: the request whose first transaction found no client meets the client at its second; both
+        # requests are answered, in the one-at-a-time order "the other instance first"
+        for j in range(sizes(tier, 6, 24)):
+            ops = ["http POST av hyph=nil hyph=1 history b:1", "http POST av hyph=latest:1 hyph=1 history b:2"]
+            par = ["nil", "$p5", "nil"][j % 3]
+            other = [f"http POST av hyph=latest:1 hyph=1 history chunks:4,4,4,4,{1 + j}", f"http POST as hyph=latest:1 hyph=1 snapshot chunks:4,4,4,4,{1 + j}",
+                     f"http POST av hyph=nil hyph=6 history chunks:2,2,2,2,{1 + j}"][j % 3 if j % 2 else 0]
+            group = [f"http POST av hyph={par} hyph=5 history chunks:3,{1 + j % 5}", other]
+            if j % 4 == 3:
+                group.reverse()
+            ops += [f"intrude {1 if j % 5 else 0} 5 b:9,{j}", "ileave " + " || ".join(group), "dump 5", "dump 1", "http GET gcv hyph=nil hyph=5 absent e",
+                    "http POST av hyph=latest:5 hyph=5 history b:3", "walk 5", "walk 1"]
+            out.append(Case(f"c03-intrude-{j}", ops, {"inst": True, "intrude": True, "http": True, "group": "intrude", "sched": [], "cmode": "shared"}, mode="http"))
+            k += 1
         # uploads for ONE client and ONE parent whose body chunks arrive alternately at one worker: exactly
         # one is accepted, the others are told the new latest version, and what is stored under the new id
         # is the body of the accepted upload and nothing else
@@ -222,6 +238,16 @@ class C03(L1Prop):
         return None, 0
     def oracle(self, case, trace, backend):
         fails = []
+        if case.meta.get("intrude"):
+            for i, (o, ri, rm) in enumerate(trace):
+                if o.startswith("mark intrusion-not-reached"):
+                    return []          # the request made fewer transactions than the case assumes: nothing was interleaved
+                if o.startswith("http "):
+                    r = HResp(ri)
+                    if not r.ok or r.status >= 500:
+                        fails.append(f"op {i} `{o[:70]}` was answered `{ri.split(' | ')[0][:60]}` although every request could be served: another instance acted between two "
+                                     f"transactions of a request while a second upload was arriving at the same worker ({backend})")
+            return fails
         if case.meta.get("ileave"):
             from .props_http import C06
             fails = list(C06().oracle(case, trace, backend))
